@@ -119,7 +119,25 @@ def run(P: Program, R: Report, tier: str) -> None:
                         "controller method may emit the refresh signal",
                         via="exception:legacy-controller" if fn.short in LEGACY_EMITTERS else "who-may-call")
     R.floor("R20.2", "emit sites", n_sites, 8)
-    # facade: emit iff success
+    check_facade(R, A, facade)
+    R.floor("R20.2", "facade methods", len(facade), 2)
+
+
+def find_facade(P: Program) -> dict:
+    tracks = P.class_named("Tracks")
+    facade = {}
+    for name, m in tracks.methods.items():
+        calls_hist = any(
+            isinstance(n, ast.Call) and isinstance(n.func, ast.Attribute)
+            and isinstance(n.func.value, ast.Attribute) and n.func.value.attr == "action_history"
+            for n in ast.walk(m.node)
+        )
+        if calls_hist:
+            facade[m.qname] = m
+    return facade
+
+
+def check_facade(R: Report, A: ActionAnalysis, facade: dict) -> None:
     for m in facade.values():
         E, results = A.run(m)
         for pr in results:
@@ -157,4 +175,3 @@ def run(P: Program, R: Report, tier: str) -> None:
                             "facade reports failure when it did not emit", f"returns {ret}", via="dataflow")
                 else:
                     R.fail("R20.2", m, m.loc, "facade emits more than once", f"{n} emissions")
-    R.floor("R20.2", "facade methods", len(facade), 2)
